@@ -158,8 +158,11 @@ bool Solver::satisfy() {
 void Solver::refine() {
     bool solved=false;
     // Solve shouldn't loop indefinately
-    // ... but just to make sure we limit the number of iterations
-    unsigned maxtries=100;
+    // ... but just to make sure we limit the number of iterations.
+    // Each pass splits at most one block, so a problem can legitimately
+    // need about as many passes as it has constraints: the limit has to
+    // grow with the problem, or large problems stop short of the optimum.
+    unsigned maxtries=100+2*m;
     while(!solved&&maxtries>0) {
         solved=true;
         maxtries--;
